@@ -127,6 +127,7 @@ def graph_property(work, args, *, pid, module, mcmodule, pkg, formulas, mc_cfgs,
     rec_info = None
     if recorder and tier in recorder["tiers"]:
         rec_info = recorder["run"](work, get_binary())
+        deviations += rec_info.get("deviations", 0)
         for tf, init, c, h in rec_info["traces"]:
             all_traces.append((tf, init, c, h))
     # ---- 5. TLC evaluates the property's formulas on every recorded real behaviour
@@ -200,6 +201,52 @@ def merge_evidence(a, b):
     acc.update({"attest." + k: v for k, v in b.get("accepted_by_operation", {}).items()})
     out["accepted_by_operation"] = acc
     return out
+
+
+def make_recorder(*, module, mcmodule, pkg, name, consts, overrides, harness, reset_op, tiers, walks=6, walklen=60, procs=8):
+    """Recorder: seeded random drivers on the real code with constants beyond the model-checking bounds;
+    every recorded behaviour is validated by TLC against the specification's own next-state relation
+    (<module>Trace.tla, strict) and handed to the property evaluation."""
+    def run(work, binary):
+        cfg = work.path("alpha-%s.cfg" % name)
+        vlib.write_cfg(cfg, init="Init", next_="Next", consts=consts, overrides=overrides, view="View", action_constraint="AlphabetDump")
+        edges = work.path("alpha-%s.out" % name)
+        r = vlib.run_tlc(work, mcmodule + ".tla", cfg, edges, workers=1, timeout=600)
+        if r["error"] or r["rc"] != 0:
+            raise Infra("alphabet generation failed: %s\n%s" % (r["error"], r["tail"][-1000:]))
+        init = vlib.first_state(edges)
+        n = procs if work.tier == "thorough" else max(2, procs // 2)
+        ps = []
+        for i in range(n):
+            tf = work.path("rec-%s-%d.ndjson" % (name, i))
+            env = dict(VERIF_EDGES=edges, VERIF_CONST=json.dumps(harness), VERIF_TRACES=tf, VERIF_WALKS=walks, VERIF_WALKLEN=walklen, VERIF_SHARD=i)
+            held = vlib.acquire_slots(1)
+            ps.append((tf, vlib.run_harness(work, binary, "TestRecord", env, work.path("rec-%s-%d.log" % (name, i))), held, i))
+        tfs = []
+        for tf, p, held, i in ps:
+            rc = p.wait()
+            vlib.release_slots(held)
+            if rc != 0:
+                raise Infra("recorder process failed:\n" + open(work.path("rec-%s-%d.log" % (name, i)), errors="replace").read()[-2500:])
+            tfs.append(tf)
+        # strict validation
+        nd = work.path("strict-%s.ndjson" % name)
+        index, nlines = vlib.concat_traces(tfs, init, reset_op, nd)
+        sc = dict(consts)
+        sc["TraceFile"] = nd
+        scfg = work.path("strict-%s.cfg" % name)
+        vlib.write_cfg(scfg, spec="TSpec", consts=sc, overrides=overrides, postcondition="Consumed")
+        r = vlib.run_tlc(work, module + "Trace.tla", scfg, work.path("strict-%s.out" % name), workers=1, timeout=1500)
+        accepted = not (r["postcondition_failed"] or r["error"] or r["rc"] != 0)
+        if r["error"] and not r["postcondition_failed"]:
+            log("strict trace validation error:", r["error"])
+        log("recorder %s: %d behaviours (%d steps) recorded from the real code with larger constants; strict validation against %sTrace.tla: %s"
+            % (name, len(index), nlines, module, "every behaviour is a behaviour of the specification" if accepted
+               else "REJECTED after %d states (the real code took a step the specification does not allow)" % r["distinct"]))
+        c = dict(name="rec-" + name, consts=consts, overrides=overrides, harness=[harness])
+        return dict(traces=[(tf, init, c, harness) for tf in tfs],
+                    summary=dict(behaviours=len(index), steps=nlines, strict_accepted=accepted, consts=consts), deviations=0 if accepted else 1)
+    return dict(tiers=tiers, run=run)
 
 
 def replay_path(work, path, *, pid, module, pkg, formulas, reset_op, extra_prop_invariants=()):
